@@ -101,7 +101,7 @@ func genC30(r *simrt.Rand, tier string) *simrt.Plan {
 		"idxkeys": b2i(idxKeys), "fldkeys": b2i(fldKeys),
 		"cache": int64(r.Intn(3)), "cachesize": int64(simrt.Pick(r, 1, 3, 50000)),
 		"bufsize": int64(simrt.Pick(r, 1, 2, 3, 7, 100000)), "sort": b2i(r.Bool(0.5)),
-		"viafile": b2i(r.Bool(0.5)), "twinidx": b2i(r.Bool(0.3)),
+		"viafile": b2i(r.Bool(0.5)), "twinidx": b2i(r.Bool(0.3)), "exportfault": int64(simrt.Pick(r, 0, 0, 0, 1, 2, 3)),
 		"othshard": int64(simrt.Pick(r, 0, 0, 3, 4)),
 		"xnode":    int64(r.Intn(nodes)), "inode": int64(r.Intn(nodes)), "qnode": int64(r.Intn(nodes)),
 	}
@@ -752,7 +752,24 @@ func (x *c30) roundtrip() {
 	}
 	// 2. export src
 	viaFile := c.Plan.Knob("viafile", 0) != 0
+	// a node that fails one of the export's shard requests: the export may fail over to another
+	// owner or fail as a whole, it may not succeed with that shard missing
+	var exportFault *simrt.NetFault
+	if k := c.Plan.Knob("exportfault", 0); k > 0 {
+		exportFault = &simrt.NetFault{Kind: "lose-request", Class: "export", N: int(k)}
+		x.cl.net.AddFault(exportFault)
+	}
 	text, err := x.export(x.srcIndex, "src", viaFile, "src")
+	if exportFault != nil {
+		x.cl.net.ClearFaults()
+		if exportFault.Fired > 0 {
+			c.Probe("fault:export-request-lost")
+			if err != nil {
+				c.Probe("export-failed-under-fault")
+				return
+			}
+		}
+	}
 	if err != nil {
 		c.Fail("export-error", "export of %s/src: %v", x.srcIndex, err)
 		return
